@@ -61,6 +61,11 @@ FUNCS = {
     'ROMAN': (1, 2, 'ii'), 'CHAR': (1, 1, 'i'), 'VALUE': (1, 1, 'a'),
     'ISNUMBER': (1, 1, 'a'), 'ISTEXT': (1, 1, 'a'), 'ISERROR': (1, 1, 'a'),
     'ISBLANK': (1, 1, 'a'), 'ISLOGICAL': (1, 1, 'a'), 'ISNA': (1, 1, 'a'),
+    # (ISODD/ISEVEN, T, DEC2BIN/BIN2DEC are single-value functions in this
+    # library; REPT, EXACT, N, PROPER are not implemented)
+    'CODE': (1, 1, 'a'), 'ISERR': (1, 1, 'a'), 'ISNONTEXT': (1, 1, 'a'),
+    'ARABIC': (1, 1, 'a'), 'HOUR': (1, 1, 'n'), 'MONTH': (1, 1, 'n'),
+    'RADIANS': (1, 1, 'n'),
     'RANDBETWEEN': None,
 }
 OPS = ('+', '-', '*', '/', '^', '&', '=', '<>', '<', '>', '<=', '>=')
@@ -78,7 +83,10 @@ def pool(kind, rng):
         return rng.choice((True, False, 1, 0, 1.0, 0.0, 2, 'x', ERR('#REF!'),
                            sh.EMPTY))
     return rng.choice(('abc', 'Ab c', '', 1, True, 1.0, 0, False, 12.5, ' x ',
-                       'b', ERR('#VALUE!'), ERR('#N/A'), sh.EMPTY, 'a'))
+                       'b', ERR('#VALUE!'), ERR('#N/A'), sh.EMPTY, 'a',
+                       # characters outside the ANSI code table, line feeds
+                       '\u0436\u0443\u043a', '\u00e9t\u00e9', '\u4e2d', '\u03a9mega',
+                       'a\nb', 'XIV', '101'))
 
 
 SHAPES = ['s', 'r', 'c', 'm']    # scalar, row 1xn, column mx1, matrix mxn
